@@ -116,7 +116,7 @@ def _worker(prop, tier, seed, widx, nworkers, deadline, max_runs, run_wall, star
                                    'sim_time': round(res.get('sim_time', 0.0), 3)})
         runs += 1
         index += nworkers
-        if len(agg['unknown']) >= 3 or len(agg['harness_errors']) >= 3:
+        if (len(agg['unknown']) >= 3 and not os.environ.get('VERIF_LIST')) or len(agg['harness_errors']) >= 3:
             break
     agg['signatures'] = list(agg['signatures'])
     agg['fired'] = dict(agg['fired'])
@@ -360,6 +360,9 @@ def main(argv=None):
             os.makedirs(d, exist_ok=True)
             with open(os.path.join(d, f"{prop}-harness-{plan_key(he['plan'])}.json"), 'w') as fh:
                 json.dump({'property': prop, 'plan': he['plan'], 'error': he['error']}, fh, indent=1, default=str)
+    if total['unknown'] and os.environ.get('VERIF_LIST'):
+        for k in sorted(total['unknown']):
+            print('UNKNOWN', k)
     if total['unknown']:
         exit_code = 1
         by_inv = {}
